@@ -24,12 +24,12 @@
 /* ---- iteration: rank contract.  c = cursor before, c2 = cursor after */
 #define POST_bui31_next(ret, c, c2, bi)	\
 	(REM_BUI31(c, bi) == 0U ? (c2) == 0U : \
-	 ((c2) != 0U && CUR_OK_BUI31(c2, bi) && (ret) <= 30U && \
+	 ((c2) != 0U && (c2) > (c) && (c2) <= 64U && CUR_OK_BUI31(c2, bi) && (ret) <= 30U && \
 	  (1U << (ret)) == LOWBIT(REM_BUI31(c, bi)) && \
 	  REM_BUI31(c2, bi) == (REM_BUI31(c, bi) & ~LOWBIT(REM_BUI31(c, bi)))))
 #define POST_bui63_next(ret, c, c2, bi)	\
 	(REM_BUI63(c, bi) == 0ULL ? (c2) == 0U : \
-	 ((c2) != 0U && CUR_OK_BUI63(c2, bi) && (ret) <= 62U && \
+	 ((c2) != 0U && (c2) > (c) && (c2) <= 128U && CUR_OK_BUI63(c2, bi) && (ret) <= 62U && \
 	  (1ULL << (ret)) == LOWBIT64(REM_BUI63(c, bi)) && \
 	  REM_BUI63(c2, bi) == (REM_BUI63(c, bi) & ~LOWBIT64(REM_BUI63(c, bi)))))
 
@@ -37,32 +37,53 @@
  * by ascending magnitude */
 #define POST_bi31_next(ret, c, c2, bi)	\
 	(REMZ_BI31(c, bi) ? \
-	 ((c2) != 0U && CUR_OK_BI31(c2, bi) && (ret) == 0 && !REMZ_BI31(c2, bi) && \
+	 ((c2) != 0U && (c2) > (c) && (c2) <= 64U && CUR_OK_BI31(c2, bi) && (ret) == 0 && !REMZ_BI31(c2, bi) && \
 	  REMP_BI31(c2, bi) == REMP_BI31(c, bi) && REMN_BI31(c2, bi) == REMN_BI31(c, bi)) : \
 	 REMP_BI31(c, bi) != 0U ? \
-	 ((c2) != 0U && CUR_OK_BI31(c2, bi) && 1 <= (ret) && (ret) <= 31 && !REMZ_BI31(c2, bi) && \
+	 ((c2) != 0U && (c2) > (c) && (c2) <= 64U && CUR_OK_BI31(c2, bi) && 1 <= (ret) && (ret) <= 31 && !REMZ_BI31(c2, bi) && \
 	  (1U << (ret)) == LOWBIT(REMP_BI31(c, bi)) && \
 	  REMP_BI31(c2, bi) == (REMP_BI31(c, bi) & ~LOWBIT(REMP_BI31(c, bi))) && \
 	  REMN_BI31(c2, bi) == REMN_BI31(c, bi)) : \
 	 REMN_BI31(c, bi) != 0U ? \
-	 ((c2) != 0U && CUR_OK_BI31(c2, bi) && -31 <= (ret) && (ret) <= -1 && !REMZ_BI31(c2, bi) && \
+	 ((c2) != 0U && (c2) > (c) && (c2) <= 64U && CUR_OK_BI31(c2, bi) && -31 <= (ret) && (ret) <= -1 && !REMZ_BI31(c2, bi) && \
 	  (1U << (-(ret))) == LOWBIT(REMN_BI31(c, bi)) && REMP_BI31(c2, bi) == 0U && \
 	  REMN_BI31(c2, bi) == (REMN_BI31(c, bi) & ~LOWBIT(REMN_BI31(c, bi)))) : \
 	 (c2) == 0U)
 #define POST_bi63_next(ret, c, c2, bi)	\
 	(REMZ_BI63(c, bi) ? \
-	 ((c2) != 0U && CUR_OK_BI63(c2, bi) && (ret) == 0 && !REMZ_BI63(c2, bi) && \
+	 ((c2) != 0U && (c2) > (c) && (c2) <= 128U && CUR_OK_BI63(c2, bi) && (ret) == 0 && !REMZ_BI63(c2, bi) && \
 	  REMP_BI63(c2, bi) == REMP_BI63(c, bi) && REMN_BI63(c2, bi) == REMN_BI63(c, bi)) : \
 	 REMP_BI63(c, bi) != 0ULL ? \
-	 ((c2) != 0U && CUR_OK_BI63(c2, bi) && 1 <= (ret) && (ret) <= 63 && !REMZ_BI63(c2, bi) && \
+	 ((c2) != 0U && (c2) > (c) && (c2) <= 128U && CUR_OK_BI63(c2, bi) && 1 <= (ret) && (ret) <= 63 && !REMZ_BI63(c2, bi) && \
 	  (1ULL << (ret)) == LOWBIT64(REMP_BI63(c, bi)) && \
 	  REMP_BI63(c2, bi) == (REMP_BI63(c, bi) & ~LOWBIT64(REMP_BI63(c, bi))) && \
 	  REMN_BI63(c2, bi) == REMN_BI63(c, bi)) : \
 	 REMN_BI63(c, bi) != 0ULL ? \
-	 ((c2) != 0U && CUR_OK_BI63(c2, bi) && -63 <= (ret) && (ret) <= -1 && !REMZ_BI63(c2, bi) && \
+	 ((c2) != 0U && (c2) > (c) && (c2) <= 128U && CUR_OK_BI63(c2, bi) && -63 <= (ret) && (ret) <= -1 && !REMZ_BI63(c2, bi) && \
 	  (1ULL << (-(ret))) == LOWBIT64(REMN_BI63(c, bi)) && REMP_BI63(c2, bi) == 0ULL && \
 	  REMN_BI63(c2, bi) == (REMN_BI63(c, bi) & ~LOWBIT64(REMN_BI63(c, bi)))) : \
 	 (c2) == 0U)
+
+/* bi383/bi447 iterators as call sites in the fillers need them: cursor stays
+ * valid and strictly advances (or ends), the value is in range.  (The
+ * member/ordering part of their contract is witness-based, see h_C19b.c.) */
+#define POST_bi447_next_weak(ret, c, c2, bi)	\
+	((c2) == 0U || ((c2) > (c) && (c2) <= 1000U && CUR_OK_447(bi, c2) && -447 <= (ret) && (ret) <= 447))
+#define POST_bi383_next_weak(ret, c, c2, bi)	\
+	((c2) == 0U || ((c2) > (c) && (c2) <= 1000U && CUR_OK_383(bi, c2) && -383 <= (ret) && (ret) <= 383))
+
+#if defined CONTRACT_DECLS_bi447 && !defined REPLAY
+int bi447_next(bitint_iter_t *restrict iter, const bitint447_t *bi)
+__CPROVER_requires(__CPROVER_is_fresh(iter, sizeof(*iter)))
+__CPROVER_requires(WF_447(bi) && CUR_OK_447(bi, *iter))
+__CPROVER_assigns(*iter)
+__CPROVER_ensures(POST_bi447_next_weak(__CPROVER_return_value, __CPROVER_old(*iter), *iter, bi));
+int bi383_next(bitint_iter_t *restrict iter, const bitint383_t *bi)
+__CPROVER_requires(__CPROVER_is_fresh(iter, sizeof(*iter)))
+__CPROVER_requires(WF_383(bi) && CUR_OK_383(bi, *iter))
+__CPROVER_assigns(*iter)
+__CPROVER_ensures(POST_bi383_next_weak(__CPROVER_return_value, __CPROVER_old(*iter), *iter, bi));
+#endif
 
 #if defined CONTRACT_DECLS_bitint && !defined REPLAY
 static inline unsigned int bui31_next(bitint_iter_t *restrict iter, bituint31_t bi)
